@@ -137,6 +137,32 @@ class An:
         return self.lift(parent, e2, depth + 1)
 
 
+def call_sites_of(prog, path):
+    return [(cb, blk, t) for cb in prog.bodies.values() for blk, t, c2 in cb.calls()
+            if c2 is not None and c2.local and c2.path == path and "parse_le" not in cb.path]
+
+
+def lift_callers(an, body, e):
+    """An expression of a private helper in the terms of each of its callers: [(caller body, expr)] with the helper's
+    parameters replaced by the (closure-lifted) argument expressions of the call site.  None when `body` is public,
+    a closure, or never called."""
+    prog = an.prog
+    if body.j.get("pub") or body.kind == "Closure":
+        return None
+    sites = call_sites_of(prog, body.path)
+    if not sites:
+        return None
+    out = []
+    for cb, blk, t in sites:
+        amap = {}
+        top = cb
+        for i2, a2 in enumerate(t["args"]):
+            top, ex = an.lift(cb, an.op(cb, a2))
+            amap[i2 + 1] = ex
+        out.append((top, an.simp(an.interp.subst(e, amap))))
+    return out
+
+
 def roots_or_fail(ctx, prog, rule, roots):
     ok = True
     for r in roots:
@@ -225,6 +251,23 @@ def dispatcher_paths(prog):
     for p, b in prog.bodies.items():
         if any(c is not None and c.npath in names for _, _, c in b.calls()):
             out.add(p)
+    # the version match split off into a private helper of the function that reads the version word and tests
+    # `allowed_versions` (`self.parse_versioned_body(version, packet)`): the dispatcher is that calling function, the
+    # helper is one of its private pieces (inlined by role_body)
+    for p in sorted(out):
+        b = prog.bodies[p]
+        if b.j.get("pub") or b.derived or b.kind == "Closure":
+            continue
+        if any(c is not None and c.npath.endswith("::contains") and "Set" in c.npath for _, _, c in b.calls()):
+            continue
+        callers = set(re.sub(r"(::\{closure#\d+\})+$", "", cb.path) for cb in prog.bodies.values() if not cb.derived
+                      for _, _, c in cb.calls() if c is not None and c.local and c.path == p)
+        if len(callers) == 1:
+            g = callers.pop()
+            gb = prog.bodies.get(g)
+            if gb is not None and not gb.j.get("pub") and g not in out and g != p:
+                out.discard(p)
+                out.add(g)
     return out
 
 
